@@ -1,4 +1,5 @@
 import Pyrtma.Proofs.ManagerStatsTiming
+import Pyrtma.Proofs.ManagerStatsTrafficM
 /-!
 # The MESSAGE_TRAFFIC clause of the Spec on the model's own run (C18)
 -/
@@ -116,5 +117,216 @@ theorem checkTraffic_fix (cfg : Cfg) (a : A) (evs : List Ev)
   apply foldl_fix
   intro o ho
   exact obsCheck_fix cfg _ a o (hobs o ho)
+
+/-! ## the rows of one report -/
+
+theorem mem_of_mem_eraseDups {α : Type} [BEq α] [LawfulBEq α] : ∀ (n : Nat) (l : List α), l.length ≤ n → ∀ x, x ∈ l.eraseDups → x ∈ l
+  | 0, l, h, x, hx => by
+    have : l = [] := List.length_eq_zero_iff.mp (by omega)
+    subst this; simp at hx
+  | n + 1, [], _, x, hx => by simp at hx
+  | n + 1, a :: as, h, x, hx => by
+    rw [List.eraseDups_cons] at hx
+    rcases List.mem_cons.mp hx with rfl | hx'
+    · simp
+    · have hl : (as.filter fun b => !b == a).length ≤ n := by
+        have := List.length_filter_le (fun b => !b == a) as
+        simp at h; omega
+      have := mem_of_mem_eraseDups n _ hl x hx'
+      exact List.mem_cons_of_mem _ (List.mem_filter.mp this).1
+
+theorem eraseDups_of_nodup {α : Type} [BEq α] [LawfulBEq α] : ∀ (l : List α), l.Nodup → l.eraseDups = l
+  | [], _ => rfl
+  | a :: as, h => by
+    have h' := List.nodup_cons.mp h
+    rw [List.eraseDups_cons]
+    have hf : (as.filter fun b => !b == a) = as := by
+      rw [List.filter_eq_self]
+      intro b hb
+      have : b ≠ a := fun e => h'.1 (e ▸ hb)
+      simpa using this
+    rw [hf, eraseDups_of_nodup as h'.2]
+
+/-- the row `Spec.checkTraffic` reads off a MESSAGE_TRAFFIC frame written to `u` -/
+def rowOf (u : Nat) (f : Frame) : TrRow :=
+  match f.body with
+  | .traffic sq sb ts cs => (u, sq, sb, ts, cs)
+  | _ => (u, 0, 0, [], [])
+
+theorem trOf_eq (evs : List Ev) : trOf evs = (dataSends isTrafficB evs).map (fun p => rowOf p.1 p.2) := by
+  unfold trOf sends dataSends
+  induction evs with
+  | nil => rfl
+  | cons e evs ih =>
+    cases e with
+    | send u c f =>
+      simp only [List.filterMap_cons]
+      cases hb : f.body <;> simp [isTrafficB, rowOf, hb, ih]
+    | _ => simpa using ih
+
+theorem rowOf_fst (u : Nat) (f : Frame) : (rowOf u f).1 = u := by unfold rowOf; split <;> rfl
+
+theorem mine_eq (evs : List Ev) (o : Nat) :
+    (trOf evs).filter (·.1 == o) = ((dataSends isTrafficB evs).filter (·.1 == o)).map (fun p => rowOf p.1 p.2) := by
+  rw [trOf_eq, List.filter_map]
+  congr 1
+  apply List.filter_congr
+  intro p _
+  simp [Function.comp, rowOf_fst]
+
+theorem zip_pad_filter (f : Int × Nat → Int) (g : Int × Nat → Nat) (x : Int) (y : Nat) (P : Int × Nat → Bool) (hP : P (x, y) = false) :
+    ∀ (ch : List (Int × Nat)) (n : Nat),
+      (List.zip (ch.map f ++ List.replicate n x) (ch.map g ++ List.replicate n y)).filter P = (ch.map (fun p => (f p, g p))).filter P
+  | [], n => by
+    induction n with
+    | zero => rfl
+    | succ n ih => simp [List.replicate_succ, List.filter_cons, hP] at ih ⊢
+  | p :: ch, n => by
+    have ih := zip_pad_filter f g x y P hP ch n
+    simp only [List.map_cons, List.cons_append, List.zip_cons_cons, List.filter_cons, ih]
+
+/-- the real entries of the rows of a whole report are the counter table itself (counts modulo 2¹⁶), minus the filler type -/
+theorem entries_rows (cfg : Cfg) (o seq : Nat) : ∀ (cs : List (List (Int × Nat))) (i : Nat),
+    entriesOf (((enumFrom1 i cs).map (fun p => mgrFrame cfg.mtTraffic 0 cfg.szTraffic (trafficBody cfg seq p.1 [] p.2))).map (rowOf o)) =
+      ((cs.flatten).map (fun p => (p.1, u16 p.2))).filter (fun e => e.1 != -1)
+  | [], _ => rfl
+  | ch :: cs, i => by
+    have ih := entries_rows cfg o seq cs (i + 1)
+    unfold entriesOf at ih ⊢
+    simp only [enumFrom1, List.map_cons, List.flatMap_cons, ih, List.flatten_cons, List.map_append, List.filter_append]
+    congr 1
+    exact zip_pad_filter (·.1) (fun q => u16 q.2) (-1) 0 (fun e => e.1 != -1) rfl ch _
+
+theorem filter_key (c : List (Int × Nat)) (hn : (ctrKeys c).Nodup) (t : Int) :
+    c.filter (·.1 == t) = if t ∈ ctrKeys c then [(t, ctrVal c t)] else [] := by
+  induction c with
+  | nil => simp [ctrKeys]
+  | cons p c ih =>
+    have hn' : (ctrKeys c).Nodup := by unfold ctrKeys at *; simp at hn; exact hn.2
+    have hnot : p.1 ∉ ctrKeys c := by unfold ctrKeys at *; simp at hn; intro h; obtain ⟨q, hq, he⟩ := List.mem_map.mp h; exact hn.1 q.2 (by rw [← he]; exact hq)
+    rw [List.filter_cons, ih hn']
+    by_cases hpt : p.1 = t
+    · subst hpt
+      have hk : p.1 ∈ ctrKeys (p :: c) := by unfold ctrKeys; simp
+      have hv : ctrVal (p :: c) p.1 = p.2 := by unfold ctrVal; simp [List.find?_cons]
+      simp only [beq_self_eq_true, if_true, hnot, if_false, hk, hv]
+    · have h1 : (p.1 == t) = false := by simpa using hpt
+      have h2 : ctrVal (p :: c) t = ctrVal c t := by unfold ctrVal; simp [List.find?_cons, h1]
+      have h3 : (t ∈ ctrKeys (p :: c)) ↔ t ∈ ctrKeys c := by
+        have : ctrKeys (p :: c) = p.1 :: ctrKeys c := rfl
+        rw [this, List.mem_cons]
+        constructor
+        · rintro (h | h)
+          · exact absurd h.symm hpt
+          · exact h
+        · exact Or.inr
+      simp only [h1, Bool.false_eq_true, if_false, h2, h3]
+
+/-- the real entries of type `t` among the rows of a whole report -/
+theorem entries_of_type (c : List (Int × Nat)) (hn : (ctrKeys c).Nodup) (t : Int) (ht : t ≠ -1) :
+    (((c.map (fun p => (p.1, u16 p.2))).filter (fun e => e.1 != -1)).filter (·.1 == t)).map (·.2) =
+      if t ∈ ctrKeys c then [u16 (ctrVal c t)] else [] := by
+  rw [List.filter_filter, List.filter_map]
+  have hcomp : ((fun e : Int × Nat => e.1 == t && e.1 != -1) ∘ fun p : Int × Nat => (p.1, u16 p.2)) = fun p => p.1 == t := by
+    funext p
+    simp only [Function.comp]
+    by_cases h : p.1 = t
+    · subst h; simp [ht]
+    · simp [h]
+  rw [hcomp, filter_key c hn t]
+  split <;> rfl
+
+/-- **the rows of a whole report pass every per-observer check of `Spec.checkTraffic`**, when the report is built from the
+    model's counter table (`tallyOn [] E`) and the Spec's tallies are the client marks / lower bounds of the same marks -/
+theorem obsOK_rows (cfg : Cfg) (hsz : 0 < cfg.trafficSize) (hneg : mgrType cfg (-1) = false) (a : A) (E : List Mark) (o : Nat)
+    (hpub : a.pubR = tallyOn [] (cliMarks cfg E)) (hrecv : ∀ q ∈ a.recvR, q.2 ≤ hmgr cfg E q.1.2)
+    (hnw : ∀ t, hmgr cfg E t < 65536) :
+    ObsOK cfg a ((trafficFrames cfg a.seq (tallyOn [] E)).map (rowOf o)) := by
+  have hnd := nodup_tally E
+  have hfl : (chunks cfg.trafficSize (tallyOn [] E) ((tallyOn [] E).length + 1)).flatten = tallyOn [] E :=
+    chunks_flatten _ hsz _ _ (by omega)
+  have hent : entriesOf ((trafficFrames cfg a.seq (tallyOn [] E)).map (rowOf o)) =
+      ((tallyOn [] E).map (fun p => (p.1, u16 p.2))).filter (fun e => e.1 != -1) := by
+    unfold trafficFrames
+    rw [entries_rows, hfl]
+  have hrows : ∀ r ∈ (trafficFrames cfg a.seq (tallyOn [] E)).map (rowOf o), ∃ p ∈ enumFrom1 1 (chunks cfg.trafficSize (tallyOn [] E) ((tallyOn [] E).length + 1)),
+      r = (o, a.seq, p.1, p.2.map (·.1) ++ List.replicate (cfg.trafficSize - p.2.length) (-1),
+        p.2.map (fun q => u16 q.2) ++ List.replicate (cfg.trafficSize - p.2.length) 0) := by
+    intro r hr
+    unfold trafficFrames at hr
+    rw [List.map_map] at hr
+    obtain ⟨p, hp, rfl⟩ := List.mem_map.mp hr
+    exact ⟨p, hp, rfl⟩
+  refine ⟨?_, ?_, ?_, ?_, ?_, ?_, ?_⟩
+  · -- sub_seqno 1, 2, 3, …
+    unfold trafficFrames
+    simp only [List.map_map, List.length_map]
+    have h1 := enumFrom1_fst 1 (chunks cfg.trafficSize (tallyOn [] E) ((tallyOn [] E).length + 1))
+    have h2 : (enumFrom1 1 (chunks cfg.trafficSize (tallyOn [] E) ((tallyOn [] E).length + 1))).length =
+        (chunks cfg.trafficSize (tallyOn [] E) ((tallyOn [] E).length + 1)).length := by
+      have := congrArg List.length (enumFrom1_snd 1 (chunks cfg.trafficSize (tallyOn [] E) ((tallyOn [] E).length + 1)))
+      simpa using this
+    rw [h2, ← h1]
+    apply List.map_congr_left
+    intro p _; rfl
+  · rw [List.all_eq_true]
+    intro r hr
+    obtain ⟨p, _, rfl⟩ := hrows r hr
+    simp
+  · rw [List.all_eq_true]
+    intro r hr
+    obtain ⟨p, hp, rfl⟩ := hrows r hr
+    have hpc : p.2 ∈ chunks cfg.trafficSize (tallyOn [] E) ((tallyOn [] E).length + 1) := by
+      have := enumFrom1_snd 1 (chunks cfg.trafficSize (tallyOn [] E) ((tallyOn [] E).length + 1))
+      rw [← this]; exact List.mem_map.mpr ⟨p, hp, rfl⟩
+    have := (chunks_sizes _ hsz _ _ _ hpc).2
+    simp; omega
+  · rw [hent]
+    have : ((((tallyOn [] E).map (fun p => (p.1, u16 p.2))).filter (fun e => e.1 != -1)).map (·.1)).Nodup := by
+      have h1 : (((tallyOn [] E).map (fun p => (p.1, u16 p.2))).filter (fun e => e.1 != -1)).map (·.1) =
+          (ctrKeys (tallyOn [] E)).filter (· != -1) := by
+        unfold ctrKeys
+        rw [List.filter_map, List.map_map, List.filter_map]
+        rfl
+      rw [h1]; exact hnd.filter _
+    rw [eraseDups_of_nodup _ this]
+  · intro q hq
+    have hq' := (List.mem_filter.mp hq)
+    have hne : q.1 ≠ -1 := by simpa using hq'.2
+    rw [hpub] at hq'
+    obtain ⟨_, hv⟩ := pub_entry cfg E hq'.1
+    have hpos := pos_tally _ q hq'.1
+    rw [hent, entries_of_type _ hnd _ hne, val_tally]
+    have hk : q.1 ∈ ctrKeys (tallyOn [] E) := (ctrVal_pos_iff (pos_tally E) q.1).mpr (by rw [val_tally, ← hv]; exact hpos)
+    simp [hk, hv, u16]
+  · intro e he hn
+    rw [hent] at he
+    have he' := (List.mem_filter.mp he).1
+    obtain ⟨p, hp, rfl⟩ := List.mem_map.mp he'
+    have hk : p.1 ∈ ctrKeys (tallyOn [] E) := List.mem_map.mpr ⟨p, hp, rfl⟩
+    have hpos := (ctrVal_pos_iff (pos_tally E) p.1).mp hk
+    rw [val_tally] at hpos
+    have hm : mgrType cfg p.1 = false := by
+      rw [Bool.or_eq_false_iff, isMgrType_eq] at hn; exact hn.1
+    have : 0 < ctrVal (tallyOn [] (cliMarks cfg E)) p.1 := by rw [val_tally, handled_cliMarks, hm]; simpa using hpos
+    have hk2 := (ctrVal_pos_iff (pos_tally _) p.1).mpr this
+    obtain ⟨r, hr, hre⟩ := List.mem_map.mp hk2
+    rw [hpub]
+    exact List.any_eq_true.mpr ⟨r, hr, by simp [hre]⟩
+  · intro q hq _
+    have hb := hrecv q hq
+    have hw := hnw q.1.2
+    by_cases hz : q.2 = 0
+    · rw [hz]; exact Nat.zero_le _
+    · unfold hmgr at hb hw
+      by_cases hm : mgrType cfg q.1.2 = true
+      · simp only [hm, if_true] at hb hw
+        have hne : q.1.2 ≠ -1 := fun e => by rw [e, hneg] at hm; cases hm
+        have hk : q.1.2 ∈ ctrKeys (tallyOn [] E) := (ctrVal_pos_iff (pos_tally E) q.1.2).mpr (by rw [val_tally]; omega)
+        rw [hent, entries_of_type _ hnd _ hne, val_tally]
+        simp only [hk, if_true, List.foldl_cons, List.foldl_nil, Nat.zero_add]
+        unfold u16; omega
+      · simp only [hm, Bool.false_eq_true, if_false] at hb
+        omega
 
 end Pyrtma.Mgr
